@@ -11,6 +11,26 @@ use std::alloc::{GlobalAlloc, Layout, System};
 use std::cell::Cell;
 use std::sync::atomic::{AtomicBool, AtomicU8, AtomicUsize, Ordering};
 
+#[cfg(feature = "asan")]
+extern "C" {
+    fn __asan_poison_memory_region(addr: *const u8, size: usize);
+    fn __asan_unpoison_memory_region(addr: *const u8, size: usize);
+}
+#[inline]
+#[allow(unused_variables)]
+unsafe fn asan_poison(addr: usize, size: usize) {
+    #[cfg(feature = "asan")]
+    __asan_poison_memory_region(addr as *const u8, size);
+}
+#[inline]
+#[allow(unused_variables)]
+unsafe fn asan_unpoison(addr: usize, size: usize) {
+    #[cfg(feature = "asan")]
+    __asan_unpoison_memory_region(addr as *const u8, size);
+}
+/// true when built as the ASAN observer (the sanitizer, not the byte scans, watches the guards)
+pub const ASAN: bool = cfg!(feature = "asan");
+
 pub const RZ: usize = 32;
 pub const RZ_BYTE: u8 = 0xA5;
 pub const POISON: u8 = 0xDD;
@@ -269,6 +289,8 @@ unsafe impl GlobalAlloc for Ledger {
             }
             base = b;
             std::ptr::write_bytes(p, RZ_BYTE, total);
+            asan_poison(raw, base - raw);
+            asan_poison(base + size, raw + total - (base + size));
         }
         // find a slot
         let mut slot = usize::MAX;
@@ -379,11 +401,13 @@ unsafe impl GlobalAlloc for Ledger {
             s.live_bytes -= b.size;
             if QUARANTINE.load(Ordering::Relaxed) {
                 std::ptr::write_bytes(b.base as *mut u8, POISON, b.size);
+                asan_poison(b.base, b.size);
                 s.blk[hit].state = 2;
             } else {
                 s.blk[hit].state = 0;
                 if b.raw != 0 {
                     drop(_g);
+                    asan_unpoison(b.raw, b.total);
                     System.dealloc(
                         b.raw as *mut u8,
                         Layout::from_size_align_unchecked(b.total, b.ralign),
@@ -426,7 +450,7 @@ unsafe impl GlobalAlloc for Ledger {
 
 unsafe fn check_rz(s: &mut State, i: usize) {
     let b = s.blk[i];
-    if b.flagged != 0 || b.raw == 0 {
+    if b.flagged != 0 || b.raw == 0 || ASAN {
         return;
     }
     let lo = std::slice::from_raw_parts(b.raw as *const u8, b.base - b.raw);
@@ -463,7 +487,7 @@ pub fn check_guards() {
             continue;
         }
         unsafe { check_rz(s, i) };
-        if b.state == 2 && b.flagged < 2 {
+        if b.state == 2 && b.flagged < 2 && !ASAN {
             let body = unsafe { std::slice::from_raw_parts(b.base as *const u8, b.size) };
             if body.iter().any(|&x| x != POISON) {
                 s.blk[i].flagged = 2;
@@ -637,12 +661,16 @@ pub fn reset() {
                 s.nev = 0;
                 s.arena_pos = RZ;
                 if s.arena_raw != 0 {
-                    unsafe { std::ptr::write_bytes(s.arena_raw as *mut u8, RZ_BYTE, s.arena_len) };
+                    unsafe {
+                        asan_unpoison(s.arena_raw, s.arena_len);
+                        std::ptr::write_bytes(s.arena_raw as *mut u8, RZ_BYTE, s.arena_len)
+                    };
                 }
             }
         }
         for &(raw, total, ralign) in &tofree[..n] {
             unsafe {
+                asan_unpoison(raw, total);
                 System.dealloc(raw as *mut u8, Layout::from_size_align_unchecked(total, ralign))
             };
         }
